@@ -690,6 +690,9 @@ type hbtNote struct {
 	ctr     uint64
 	ts      time.Time
 	tsErr   bool
+	tsRaw   string    // the timestamp as it stands on the wire
+	tsOwn   time.Time // ... read by the harness's own reader (hbtParseStamp), not by the stack's GetTime
+	tsOwnOk bool
 	timeout time.Duration
 	src     string // entity/feature the notification says it comes from
 	dst     string
@@ -705,6 +708,7 @@ type hbtWriter struct {
 	armed   int32
 	held    chan struct{}
 	release chan struct{}
+	done    int32 // heartbeat notifications whose write has returned
 }
 
 func newHbtWriter() *hbtWriter {
@@ -721,6 +725,7 @@ func (w *hbtWriter) WriteShipMessageWithPayload(m []byte) {
 	if hb == nil || d.Datagram.Header.CmdClassifier == nil || *d.Datagram.Header.CmdClassifier != model.CmdClassifierTypeNotify {
 		return
 	}
+	defer atomic.AddInt32(&w.done, 1)
 	n := hbtNote{t: t}
 	if hb.HeartbeatCounter != nil {
 		n.ctr = *hb.HeartbeatCounter
@@ -728,6 +733,8 @@ func (w *hbtWriter) WriteShipMessageWithPayload(m []byte) {
 	if hb.Timestamp != nil {
 		ts, err := hb.Timestamp.GetTime()
 		n.ts, n.tsErr = ts, err != nil
+		n.tsRaw = string(*hb.Timestamp)
+		n.tsOwn, n.tsOwnOk = hbtParseStamp(n.tsRaw)
 	} else {
 		n.tsErr = true
 	}
@@ -757,6 +764,29 @@ type hbtSample struct {
 	t       time.Time
 	ctr     uint64
 	timeout time.Duration
+	tsRaw   string // the timestamp text of the feature's own data
+}
+
+// hbtParseStamp: the instant a timestamp text denotes, read by the harness itself (ISO 8601 / RFC 3339: a literal
+// 'Z' or no designator = UTC, an explicit offset is honoured). Deliberately not the stack's own GetTime: a writer and
+// a reader of the stack that err the same way would cancel out.
+func hbtParseStamp(s string) (time.Time, bool) {
+	for _, l := range []string{time.RFC3339Nano, "2006-01-02T15:04:05.999999999"} {
+		if t, err := time.ParseInLocation(l, s, time.UTC); err == nil {
+			return t, true
+		}
+	}
+	return time.Time{}, false
+}
+
+// hbtZone: for the whole of TestHeartbeat the process's local time zone is a fixed zone two hours east of UTC (the
+// sandbox runs in UTC, where local wall-clock time and UTC coincide and a timestamp taken from the local clock but
+// labelled 'Z' cannot be told from a correct one). Set before any goroutine of the test exists; the harness itself
+// only subtracts instants (zone-free).
+func hbtZone() func() {
+	old := time.Local
+	time.Local = time.FixedZone("VERIF+02", 2*60*60)
+	return func() { time.Local = old }
 }
 
 type hbtSpan struct{ a, b time.Time }
@@ -908,7 +938,10 @@ type hbtEv struct {
 // StopHeartbeat / RemoveEntity - whatever the device's list says about the entity - at most one more refresh and
 // IsHeartbeatRunning false. attach = the entity is added to the device (and two peers subscribe) before the script.
 // Returns the failures (key, detail), the median refresh gap, the announced timeout and a description.
-func hbtRealtime(T time.Duration, ticks int, attach bool, script []string) (fails [][2]string, median time.Duration, announced time.Duration, desc string, indet []string) {
+// slow > 0: the first subscriber's connection is slow - every heartbeat notification takes that long to write (the
+// refresh, which notifies inside SetData, then lasts that long): the refreshes must still come one PERIOD apart, not a
+// period plus the time a refresh takes.
+func hbtRealtime(T time.Duration, ticks int, attach bool, script []string, slow time.Duration) (fails [][2]string, median time.Duration, announced time.Duration, desc string, indet []string, stamps [][2]int64) {
 	h.JitterStart()
 	P := T
 	if T > 2*time.Second {
@@ -918,6 +951,9 @@ func hbtRealtime(T time.Duration, ticks int, attach bool, script []string) (fail
 	what := fmt.Sprintf("timeout %v", T)
 	if !attach {
 		what += ", entity not added to the device"
+	}
+	if slow > 0 {
+		what += fmt.Sprintf(", the first subscriber takes %v to write a notification", slow)
 	}
 	fail := func(key, detail string) {
 		fails = append(fails, [2]string{key, what + ": " + detail})
@@ -930,6 +966,9 @@ func hbtRealtime(T time.Duration, ticks int, attach bool, script []string) (fail
 		nSub = 2
 		for p := 0; p < nSub; p++ {
 			wr = append(wr, newHbtWriter())
+			if p == 0 {
+				wr[p].slow = slow
+			}
 			hbtSubscribe(w, fmt.Sprintf("hbt%d-%d", id, p), fmt.Sprintf("dev%d", p), wr[p])
 		}
 		if n := len(w.l.SubscriptionManager().SubscriptionsOnFeature(*w.f.Address())); n != nSub {
@@ -957,6 +996,9 @@ func hbtRealtime(T time.Duration, ticks int, attach bool, script []string) (fail
 				sm := hbtSample{t: time.Now(), ctr: *d.HeartbeatCounter}
 				if d.HeartbeatTimeout != nil {
 					sm.timeout, _ = d.HeartbeatTimeout.GetTimeDuration()
+				}
+				if d.Timestamp != nil {
+					sm.tsRaw = string(*d.Timestamp)
 				}
 				smu.Lock()
 				samples = append(samples, sm)
@@ -1141,6 +1183,17 @@ func hbtRealtime(T time.Duration, ticks int, attach bool, script []string) (fail
 			break
 		}
 	}
+	// "a current timestamp", on the feature's own data (worlds without subscribers have no other witness): the text,
+	// read by the harness's own reader, denotes the instant of the refresh (resolution 1 s; the sampler sees a refresh
+	// within a millisecond or so - when the machine did not keep time there, the sample is not judged)
+	for _, sm := range ss {
+		own, ok := hbtParseStamp(sm.tsRaw)
+		tol := 1500*time.Millisecond + 2*rtLate(sm.t.Add(-time.Second), sm.t)
+		if !ok || own.Sub(sm.t) > tol || sm.t.Sub(own) > tol {
+			fail("C16/timestamp-not-current", fmt.Sprintf("the feature's data with counter %d carries the timestamp %q, sampled at %v UTC (local zone of the process: %v)", sm.ctr, sm.tsRaw, sm.t.UTC().Format("2006-01-02T15:04:05.000Z"), time.Local))
+			break
+		}
+	}
 	judge("the feature's data", st, sc, runs, true)
 	final("the feature's data", st, 2*time.Millisecond)
 	gaps := append([]time.Duration{}, gapsAll...)
@@ -1185,6 +1238,14 @@ func hbtRealtime(T time.Duration, ticks int, attach bool, script []string) (fail
 				fail("C16/timestamp-not-current", fmt.Sprintf("%s: counter %d carries timestamp %v, received at %v", who, n.ctr, n.ts, n.t.UTC()))
 				break
 			}
+			if n.tsOwnOk && len(stamps) < 4 {
+				stamps = append(stamps, [2]int64{n.t.UnixMilli(), n.tsOwn.UnixMilli()})
+			}
+			// ... and by the harness's own reading of the text on the wire, against the harness's clock in UTC
+			if !n.tsOwnOk || n.tsOwn.Sub(n.t) > 1500*time.Millisecond || n.t.Sub(n.tsOwn) > 1500*time.Millisecond {
+				fail("C16/timestamp-not-current", fmt.Sprintf("%s: counter %d carries the timestamp text %q, received at %v UTC (local zone of the process: %v)", who, n.ctr, n.tsRaw, n.t.UTC().Format("2006-01-02T15:04:05.000Z"), time.Local))
+				break
+			}
 		}
 		var early []window
 		for _, wd := range runs {
@@ -1212,12 +1273,27 @@ func hbtRealtime(T time.Duration, ticks int, attach bool, script []string) (fail
 			fail("C16/period-exceeds-timeout", detail)
 		}
 	}
+	// a slow subscriber: a loop paced by a timer armed anew after every refresh has gaps of period + refresh time; the
+	// excess to look for is the write time itself, far above the scheduling noise
+	if slow > 0 && len(gaps) >= 3 && median > T+slow/2 {
+		detail := fmt.Sprintf("with a subscriber that takes %v to write, the median of %d gaps between refreshes is %v; the data announces the timeout %v (the period stretches by the time a refresh takes)", slow, len(gaps), median, T)
+		if jp99 >= slow/4 {
+			indet = append(indet, fmt.Sprintf("%s: %s [not judged: 99th percentile of the reference lateness %v]", what, detail, jp99))
+		} else {
+			fail("C16/period-exceeds-timeout", detail)
+		}
+	}
 	announced = T
 	max := time.Duration(0)
 	if len(gaps) > 0 {
 		max = gaps[len(gaps)-1]
 	}
-	desc = fmt.Sprintf("configured %v, announced %v, added to the device %v: %d refreshes, %d gaps inside running spans, median %v, max %v", configured, T, attach, len(ss), len(gaps), median, max)
+	if slow > 0 {
+		what = fmt.Sprintf(" (first subscriber %v per write)", slow)
+	} else {
+		what = ""
+	}
+	desc = fmt.Sprintf("configured %v, announced %v, added to the device %v"+what+": %d refreshes, %d gaps inside running spans, median %v, max %v", configured, T, attach, len(ss), len(gaps), median, max)
 	return
 }
 
@@ -1293,6 +1369,159 @@ func hbtHeld(T time.Duration) (fails [][2]string) {
 	return
 }
 
+// hbtStreams: ALL the streams of one manager, compared step by step with Spine.HBM (driver ops `m ...`): scripted
+// histories in which the goroutine of an earlier start still has a refresh in flight (held inside the first
+// subscriber's writer, i.e. inside SetData) while stops and further starts happen. Observation after every step:
+// IsHeartbeatRunning, number of heartbeat goroutines, number of refreshes COMPLETED since the heartbeat function was
+// added (a refresh has completed when the write to every subscriber has returned - whatever the order of the
+// subscribers). SPEC: after a stop has returned at most one refresh completes. The steps between "hold" and "release"
+// take microseconds; if the machine stalls there for a sizeable part of a period (a ticker may then fire meanwhile: a
+// schedule outside A-inflight), the history is not judged (indet) and run again by the caller.
+// Runs alone (heartbeat goroutines are counted).
+func hbtStreams(d *h.Driver, T time.Duration, script []string) (fails [][2]string, mism *h.Mismatch, indet string) {
+	what := fmt.Sprintf("timeout %v, streams %s", T, strings.Join(script, ","))
+	fail := func(key, detail string) { fails = append(fails, [2]string{key, what + ": " + detail}) }
+	id := atomic.AddInt64(&hbtWorldSeq, 1)
+	w := newHbtWorld(T, true)
+	wr := []*hbtWriter{newHbtWriter(), newHbtWriter()}
+	for p := range wr {
+		hbtSubscribe(w, fmt.Sprintf("hbt%d-s%d", id, p), fmt.Sprintf("devs%d", p), wr[p])
+	}
+	w.g0 = hbtGoroutines()
+	completed := func() int {
+		a, b := int(atomic.LoadInt32(&wr[0].done)), int(atomic.LoadInt32(&wr[1].done))
+		if b < a {
+			return b
+		}
+		return a
+	}
+	d.Ask("m reset")
+	base, heldAt, held := 0, time.Time{}, false
+	cur, next, heldStream := 0, 0, 0 // the model's stream numbers: started last / next to start / refresh held
+	var done []string
+	var stoppedAt int = -1 // completed refreshes when the last stop returned (-1: running)
+	defer func() {
+		if held { // never leave the heartbeat goroutine blocked
+			wr[0].release <- struct{}{}
+		}
+		w.hm.StopHeartbeat()
+	}()
+	for _, op := range script {
+		var lines []string
+		switch op {
+		case "add":
+			if pan := h.Recover(func() { w.f.AddFunctionType(model.FunctionTypeDeviceDiagnosisHeartbeatData, true, false) }); pan != nil {
+				fail("C16/panic-sequential", fmt.Sprintf("AddFunctionType(heartbeat) panicked: %v", pan))
+				return
+			}
+			base = completed() // the initial data set by SetLocalFeature is notified too
+			lines = []string{"m start"}
+		case "start":
+			_ = w.hm.StartHeartbeat()
+			stoppedAt = -1
+			lines = []string{"m start"}
+		case "stop", "remove":
+			if op == "stop" {
+				w.hm.StopHeartbeat()
+			} else {
+				w.l.RemoveEntity(w.e)
+			}
+			if stoppedAt < 0 {
+				stoppedAt = completed()
+			}
+			lines = []string{"m stop"}
+		case "hold": // the next refresh of the running stream is held in flight
+			atomic.StoreInt32(&wr[0].armed, 1)
+			select {
+			case <-wr[0].held:
+				held, heldAt = true, time.Now()
+			case <-time.After(T + 2*time.Second):
+				atomic.StoreInt32(&wr[0].armed, 0)
+				fail("C16/period-exceeds-timeout", "no refresh arrived at the subscriber to be held")
+				return
+			}
+			lines = []string{"m tick CUR", "m take CUR"}
+		case "release":
+			if time.Since(heldAt) > T/3 {
+				indet = fmt.Sprintf("%s: %v passed between hold and release (period %v): a ticker may have fired meanwhile, not judged", what, time.Since(heldAt), T)
+				return
+			}
+			wr[0].release <- struct{}{}
+			held = false
+			lines = []string{"m store HELD", "m exit HELD"}
+		case "refresh": // the running stream completes one refresh of its own
+			lines = []string{"m tick CUR", "m take CUR", "m store CUR"}
+		case "wait": // two periods: whatever tickers still exist fire
+			time.Sleep(2*T + 50*time.Millisecond)
+			lines = []string{"m obs"}
+		}
+		done = append(done, op)
+		// CUR = the stream started last, HELD = the stream whose refresh is held
+		ans := ""
+		for _, l := range lines {
+			l = strings.ReplaceAll(l, "CUR", strconv.Itoa(cur))
+			l = strings.ReplaceAll(l, "HELD", strconv.Itoa(heldStream))
+			ans = d.Ask(l)
+		}
+		switch op {
+		case "add", "start", "stop", "remove":
+			if op == "add" || op == "start" {
+				cur, next = next, next+1
+			}
+			// a stopped stream without a refresh in flight notices its closed channel and returns at once
+			for k := 0; k < next; k++ {
+				ans = d.Ask(fmt.Sprintf("m exit %d", k))
+			}
+		case "hold":
+			heldStream = cur
+		}
+		wantG, _ := strconv.Atoi(hbtField(ans, "goroutines"))
+		wantC, _ := strconv.Atoi(hbtField(ans, "stored"))
+		// wait (bounded) for what the model predicts, then compare
+		var gotG, gotC int
+		bound := 2 * time.Second
+		if op == "refresh" {
+			bound += T
+		}
+		for t0 := time.Now(); time.Since(t0) < bound; {
+			gotG, gotC = runtime.NumGoroutine()-w.g0, completed()-base
+			if gotG == wantG && gotC == wantC {
+				break
+			}
+			time.Sleep(100 * time.Microsecond)
+		}
+		run := 0
+		if w.hm.IsHeartbeatRunning() {
+			run = 1
+		}
+		impl := fmt.Sprintf("run=%d goroutines=%d stored=%d", run, gotG, gotC)
+		mdl := fmt.Sprintf("run=%s goroutines=%d stored=%d", hbtField(ans, "run"), wantG, wantC)
+		if stoppedAt >= 0 && completed()-stoppedAt > 1 {
+			fail("C16/refresh-after-stop", fmt.Sprintf("after %s: %d refreshes completed after StopHeartbeat / RemoveEntity had returned (streams of earlier starts included)", strings.Join(done, ","), completed()-stoppedAt))
+			return
+		}
+		if impl != mdl {
+			mism = &h.Mismatch{Ops: append([]string{fmt.Sprintf("streams %d", T.Milliseconds())}, done...), Impl: impl, Model: mdl, Note: "all streams of one heartbeat manager vs Spine.HBM (" + hbtField(ans, "prompt") + " = every tick came when nothing was pending)"}
+			return
+		}
+	}
+	return
+}
+
+var hbtStreamScripts = [][]string{
+	// start -> refresh in flight -> stop -> start -> stop -> the refresh completes: exactly that one, then silence
+	{"add", "hold", "stop", "start", "stop", "release", "wait"},
+	// the same with RemoveEntity as the second stop
+	{"add", "hold", "stop", "start", "remove", "release", "wait"},
+	// a restart while the old stream's refresh is in flight; it completes while the new stream runs; the new stream
+	// refreshes; stop: nothing more
+	{"add", "hold", "start", "release", "refresh", "stop", "wait"},
+	// two restarts while the first stream's refresh is in flight, then the new stream's refresh is held over a stop
+	{"add", "hold", "start", "start", "release", "hold", "stop", "release", "wait"},
+	// stop with the refresh in flight, release, start again, refresh, stop
+	{"add", "hold", "stop", "release", "wait", "start", "refresh", "stop", "wait"},
+}
+
 func hbtCtrs(ns []hbtNote) string {
 	var s []string
 	for _, n := range ns {
@@ -1358,6 +1587,7 @@ func hbtHammer(rng *rand.Rand, goroutines, opsEach int) (panics []string, stream
 func TestHeartbeat(t *testing.T) {
 	r := h.NewReport("heartbeat", "(A) histories of StartHeartbeat / StopHeartbeat / IsHeartbeatRunning / RemoveEntity on a real HeartbeatManager, sequentially and as goroutines parked at the two yield points and released in the order of the model's event list (up to three operations in flight), observation = (IsHeartbeatRunning, number of heartbeat goroutines, panic) compared with Spine.HB after every step; (B) live heartbeats with announced timeouts from 100 ms to seconds incl. > 2 s, two real subscribers: notify trace and sampled data judged by the SPEC monitor, median gap compared with Spine.HB.period; (C) unparked concurrent start/stop/IsHeartbeatRunning from 8 goroutines; non-trivial = distinct part-A histories (by op text) that agreed to the end")
 	defer r.Write()
+	defer hbtZone()() // first: no goroutine of the test exists yet
 	defer hbtGuard(r, "C16")()
 	defer hbtWatchdog("TestHeartbeat", time.Duration(h.Scale(6, 25))*time.Minute)()
 	h.JitterStart()
@@ -1387,14 +1617,19 @@ func TestHeartbeat(t *testing.T) {
 			f := strings.Fields(ops[0])
 			ms, _ := strconv.Atoi(f[1])
 			ticks, attach, script := 3, true, hbtScriptAttached
+			slow := time.Duration(0)
 			if len(f) >= 5 {
 				ticks, _ = strconv.Atoi(f[2])
 				attach = f[3] == "attached"
 				script = strings.Split(f[4], ",")
 			}
-			fails, _, _, desc, ind := hbtRealtime(time.Duration(ms)*time.Millisecond, ticks, attach, script)
+			if len(f) >= 6 && strings.HasPrefix(f[5], "slow=") {
+				sm, _ := strconv.Atoi(strings.TrimPrefix(f[5], "slow="))
+				slow = time.Duration(sm) * time.Millisecond
+			}
+			fails, _, _, desc, ind, _ := hbtRealtime(time.Duration(ms)*time.Millisecond, ticks, attach, script, slow)
 			for try := 1; try < 3 && len(fails) == 0 && len(ind) > 0; try++ {
-				fails, _, _, desc, ind = hbtRealtime(time.Duration(ms)*time.Millisecond, ticks, attach, script)
+				fails, _, _, desc, ind, _ = hbtRealtime(time.Duration(ms)*time.Millisecond, ticks, attach, script, slow)
 			}
 			r.Info["indeterminate_under_load"] = ind
 			r.Eval("realtime", "")
@@ -1422,6 +1657,24 @@ func TestHeartbeat(t *testing.T) {
 				r.Traces++
 			}
 			r.Sample(desc)
+			return
+		}
+		if len(ops) > 0 && strings.HasPrefix(ops[0], "streams ") {
+			ms, _ := strconv.Atoi(strings.Fields(ops[0])[1])
+			fails, mism, ind := hbtStreams(d, time.Duration(ms)*time.Millisecond, ops[1:])
+			for try := 1; try < 3 && ind != ""; try++ {
+				fails, mism, ind = hbtStreams(d, time.Duration(ms)*time.Millisecond, ops[1:])
+			}
+			r.Eval("streams", "")
+			for _, f := range fails {
+				r.SpecFail(f[0], ops, f[1])
+			}
+			if mism != nil {
+				r.Mismatch(mism.Ops, mism.Impl, mism.Model, mism.Note)
+			}
+			if len(fails) == 0 && mism == nil {
+				r.Traces++
+			}
 			return
 		}
 		if len(ops) > 0 && strings.HasPrefix(ops[0], "held ") {
@@ -1493,20 +1746,58 @@ func TestHeartbeat(t *testing.T) {
 		}
 	}
 
+	// ----- all streams of one manager vs Spine.HBM (alone: heartbeat goroutines are counted)
+	var streamsIndet []string
+	for _, ms := range []int{300, h.Scale(200, 500)} {
+		for _, script := range hbtStreamScripts {
+			T := time.Duration(ms) * time.Millisecond
+			fails, mism, ind := hbtStreams(d, T, script)
+			for try := 1; try < 3 && (ind != "" || len(fails) > 0 || mism != nil); try++ {
+				if ind == "" {
+					streamsIndet = append(streamsIndet, fmt.Sprintf("run %d of streams %d %v: %v %v", try, ms, script, fails, mism))
+				}
+				fails, mism, ind = hbtStreams(d, T, script)
+			}
+			if ind != "" {
+				streamsIndet = append(streamsIndet, ind)
+				r.Eval("streams:indeterminate-under-load", "")
+				continue
+			}
+			op := append([]string{fmt.Sprintf("streams %d", ms)}, script...)
+			r.Eval("streams", "")
+			for _, f := range fails {
+				r.SpecFail(f[0], op, f[1])
+			}
+			if mism != nil {
+				r.Mismatch(mism.Ops, mism.Impl, mism.Model, mism.Note)
+			}
+			if len(fails) == 0 && mism == nil {
+				r.Traces++
+				r.Case("streams " + strings.Join(script, ","))
+			}
+		}
+	}
+	r.Info["streams_first_runs"] = streamsIndet
+
 	// ----- part B: live heartbeats, all timeouts concurrently
 	type rt struct {
 		ms, ticks int
 		attach    bool
 		script    []string
+		slowMs    int // the first subscriber takes this long to write a heartbeat notification
 	}
 	full := append(append([]string{}, hbtScriptAttached...), hbtScriptReadd...)
 	short := []string{"add", "run", "stop", "silence"}
-	plan := []rt{{100, 6, true, full}, {250, 4, true, hbtScriptAttached}, {1000, 2, true, hbtScriptAttached}, {2300, 4, true, hbtScriptAttached},
-		{150, 8, true, hbtScriptAttached}, {1950, 4, true, short},
-		{100, 6, false, hbtScriptDetached}, {300, 4, false, hbtScriptDetached}}
+	slowScript := []string{"add", "run", "restart", "run", "stop", "silence"}
+	plan := []rt{{100, 6, true, full, 0}, {250, 4, true, hbtScriptAttached, 0}, {1000, 2, true, hbtScriptAttached, 0}, {2300, 4, true, hbtScriptAttached, 0},
+		{150, 8, true, hbtScriptAttached, 0}, {1950, 4, true, short, 0},
+		{100, 6, false, hbtScriptDetached, 0}, {300, 4, false, hbtScriptDetached, 0},
+		// a subscriber whose connection is slow to write (150 ms per notification; timeouts <= 2 s: period = timeout)
+		{400, 6, true, slowScript, 150}, {1000, 4, true, short, 150}}
 	if h.Tier() == "thorough" {
-		plan = append(plan, rt{350, 6, true, full}, rt{500, 4, true, full}, rt{2000, 2, true, hbtScriptAttached}, rt{2100, 10, true, full},
-			rt{4000, 2, true, hbtScriptAttached}, rt{6000, 2, true, hbtScriptAttached}, rt{1000, 2, false, hbtScriptDetached}, rt{2300, 4, false, hbtScriptDetached})
+		plan = append(plan, rt{350, 6, true, full, 0}, rt{500, 4, true, full, 0}, rt{2000, 2, true, hbtScriptAttached, 0}, rt{2100, 10, true, full, 0},
+			rt{4000, 2, true, hbtScriptAttached, 0}, rt{6000, 2, true, hbtScriptAttached, 0}, rt{1000, 2, false, hbtScriptDetached, 0}, rt{2300, 4, false, hbtScriptDetached, 0},
+			rt{300, 10, true, slowScript, 200}, rt{2000, 3, true, short, 500}, rt{2300, 6, true, short, 150})
 	}
 	var wg sync.WaitGroup
 	var bmu sync.Mutex
@@ -1553,14 +1844,15 @@ func TestHeartbeat(t *testing.T) {
 			T := time.Duration(p.ms) * time.Millisecond
 			// a world with a failure, or with a real-time verdict that could not be judged because the machine did not
 			// keep time (jitter witness), is run again in a fresh world, up to three times in all
-			fails, median, announced, desc, ind := hbtRealtime(T, p.ticks, p.attach, p.script)
+			slow := time.Duration(p.slowMs) * time.Millisecond
+			fails, median, announced, desc, ind, stamps := hbtRealtime(T, p.ticks, p.attach, p.script, slow)
 			for try := 1; try < 3 && (len(fails) > 0 || len(ind) > 0); try++ {
 				bmu.Lock()
 				if len(fails) > 0 {
 					flakes = append(flakes, fmt.Sprintf("run %d of timeout %v: %v", try, T, fails))
 				}
 				bmu.Unlock()
-				fails, median, announced, desc, ind = hbtRealtime(T, p.ticks, p.attach, p.script)
+				fails, median, announced, desc, ind, stamps = hbtRealtime(T, p.ticks, p.attach, p.script, slow)
 			}
 			bmu.Lock()
 			defer bmu.Unlock()
@@ -1570,11 +1862,31 @@ func TestHeartbeat(t *testing.T) {
 			}
 			descs = append(descs, desc)
 			op := []string{fmt.Sprintf("realtime %d %d %s %s", p.ms, p.ticks, map[bool]string{true: "attached", false: "detached"}[p.attach], strings.Join(p.script, ","))}
+			if p.slowMs > 0 {
+				op[0] += fmt.Sprintf(" slow=%d", p.slowMs)
+			}
 			for _, f := range fails {
 				r.SpecFail(f[0], op, f[1])
 			}
+			// tie to Spine.HBS: the instant the timestamp text denotes (read by the harness's own reader) is the one the
+			// model derives from the instant of the refresh and the process's zone (resolution of the text: 1 s; the
+			// notification was received a moment after the refresh)
+			_, zoneS := time.Now().Zone()
+			for _, st := range stamps {
+				want, _ := strconv.ParseInt(d.Ask(fmt.Sprintf("stamp %d %d", st[0], zoneS)), 10, 64)
+				r.Eval("stamp", "")
+				if diff := st[1] - want; (diff > 1000 || diff < -1000) && len(fails) == 0 {
+					r.Mismatch(append(op, fmt.Sprintf("stamp %d %d", st[0], zoneS)), fmt.Sprintf("timestamp text denotes %d ms", st[1]), fmt.Sprintf("%d ms", want), "instant denoted by the timestamp of a refresh notified at the given instant (local zone offset in s)")
+					break
+				}
+			}
 			// tie to Spine.HB.period: the measured period is the model's
 			want, _ := strconv.Atoi(d.Ask(fmt.Sprintf("period %d", announced.Milliseconds())))
+			if p.slowMs > 0 {
+				// Spine.HBP: the gap between two refreshes that take slowMs each, for the pacing of the tree under test
+				// (one ticker created before the loop: regenerated fact of Props/C16Gen)
+				want, _ = strconv.Atoi(d.Ask(fmt.Sprintf("gap ticker %d %d 1", announced.Milliseconds(), p.slowMs)))
+			}
 			wantD := time.Duration(want) * time.Millisecond
 			r.Eval("realtime", "")
 			if median == 0 {
